@@ -176,8 +176,13 @@ class H11Protocol:
                 break
             else:
                 if isinstance(event, h11.Request):
-                    await self.send(Updated(idle=False))
+                    if event.method != b"PRI":
+                        # (The HTTP/2 preface parses as a request, but
+                        # is not one and must not stop the idle timer.)
+                        await self.send(Updated(idle=False))
                     await self._check_protocol(event)
+                    if event.method == b"PRI":
+                        await self.send(Updated(idle=False))
                     await self._create_stream(event)
                 elif event is h11.PAUSED:
                     if self.stream is None:
